@@ -561,3 +561,55 @@ Fixpoint monitor_fails_from (n : nat) (cs : list case) : list (nat * string) :=
   | c :: r => map (fun sg => (n, sg)) (monitor c) ++ monitor_fails_from (S n) r
   end.
 Definition monitor_fails := monitor_fails_from 0.
+
+(* ---------- overlapping operations ----------
+   One store operation `a` is parked at one of its storage writes while a second operation `b` on the same store is
+   started; the real code serialises them by the cluster lock, so the outcome must be that of one of the two
+   sequential orders.  Observed: both results, the final snapshot and, when b completed while a was still parked
+   (which the lock forbids for every pair that writes), the snapshot taken at that moment. *)
+Record oobs := OObs { oo_ra : res; oo_rb : res; oo_before : obs; oo_mid : option obs; oo_final : obs }.
+Definition ocase := (ver * payload * list op * op * op * oobs)%type.
+
+Definition snap_eqb (a b : obs) : bool :=
+  list_eqb entry_eqb (o_served a) (o_served b) && list_eqb entry_eqb (o_stored a) (o_stored b).
+Definition seq_outcome (s : state) (a b : op) : res * res * obs :=
+  let '(s1, ra) := run_cmd s a in let '(s2, rb) := run_cmd s1 b in (ra, rb, snapshot s2 ROk).
+Definition serialisable (c : ocase) : bool :=
+  let '(cv, p, setup, a, b, o) := c in
+  let s := run_state run_op (boot cv p) setup in
+  let '(ra1, rb1, f1) := seq_outcome s a b in
+  let '(rb2, ra2, f2) := seq_outcome s b a in
+  (res_eqb ra1 (oo_ra o) && res_eqb rb1 (oo_rb o) && snap_eqb f1 (oo_final o))
+  || (res_eqb ra2 (oo_ra o) && res_eqb rb2 (oo_rb o) && snap_eqb f2 (oo_final o)).
+
+(* the lifecycle clauses on what was observed: before -> (b alone) -> mid -> (a alone) -> final *)
+Definition step_moves_ok (o : op) (prev cur : obs) : bool :=
+  forallb (fun id => move_ok o id (vget (o_served prev) id) (vget (o_served cur) id)) (ids_of (o_served prev) (o_served cur)).
+Definition tombstone_back (prev cur : obs) : bool :=
+  existsb (fun id => match vget (o_served prev) id, vget (o_served cur) id with
+                     | Some x, Some y => sstate_eqb (v_state x) Tombstone && negb (sstate_eqb (v_state y) Tombstone)
+                     | _, _ => false end) (map fst (o_served prev)).
+Definition monitor_o (c : ocase) : list string :=
+  let '(_, _, _, a, b, o) := c in
+  ((if serialisable c then [] else ["C14:overlapping-operations-not-serialisable"]) ++
+   (match oo_mid o with
+    | Some m =>
+        (if tombstone_back (oo_before o) m || tombstone_back m (oo_final o) then ["C14:tombstone-returned"] else []) ++
+        (if step_moves_ok b (oo_before o) m && step_moves_ok a m (oo_final o) then [] else ["C14:illegal-lifecycle-move"])
+    | None => []
+    end) ++
+   (if addr_unique (o_served (oo_final o)) then [] else ["C14:duplicate-live-address"]))%list.
+Fixpoint monitor_o_fails_from (n : nat) (cs : list ocase) : list (nat * string) :=
+  match cs with
+  | [] => []
+  | c :: r => (map (fun sg => (n, sg)) (nodup string_dec (monitor_o c)) ++ monitor_o_fails_from (S n) r)%list
+  end.
+Definition monitor_o_fails := monitor_o_fails_from 0.
+(* for the log: what the two sequential orders would have given *)
+Definition explain_o (cs : list ocase) : list (nat * (res * res) * (res * res) * (res * res)) :=
+  flat_map (fun ic : nat * ocase =>
+    let '(cv, p, setup, a, b, o) := snd ic in
+    if serialisable (snd ic) then [] else
+    let s := run_state run_op (boot cv p) setup in
+    let '(ra1, rb1, _) := seq_outcome s a b in let '(rb2, ra2, _) := seq_outcome s b a in
+    [(fst ic, (oo_ra o, oo_rb o), (ra1, rb1), (ra2, rb2))]) (number_from 0 cs).
